@@ -98,6 +98,12 @@ func streamCorpus() []CFrame {
 		fb := byte(t<<4) | spec.DefaultFlags(byte(t))
 		add(fmt.Sprintf("rl0.type%d", t), []byte{fb, 0}, byte(t))
 	}
+	// every type nibble with a short body it did not ask for (pings and
+	// the reserved type accept any body; the others reject it)
+	for t := 0; t < 16; t++ {
+		fb := byte(t<<4) | spec.DefaultFlags(byte(t))
+		add(fmt.Sprintf("body2.type%d", t), []byte{fb, 2, 0x00, 0x07}, byte(t))
+	}
 	// framed, but the content is malformed
 	add("bad.connack.unknownprop", unhex("20050000027e00"), 2)
 	add("bad.publish.bool2", unhex("3006000174020102"), 3)
